@@ -62,7 +62,17 @@ static void do_line(char *work, const char *orig) {
 				if (r == KSI_OK) r = KSI_PublicationRecord_new(ctx, &pub);
 				if (r == KSI_OK) r = KSI_TlvTemplate_extract(ctx, pub, pubTlv, KSI_TLV_TEMPLATE(KSI_PublicationRecord));
 				if (r != KSI_OK) { printf("BAD-PUB%d", r); goto done; }
-				r = KSI_Signature_extend(sig, ctx, pub, &ext);
+				if (rn % 2) r = KSI_Signature_extend(sig, ctx, pub, &ext);
+				else {
+					/* the same through the entry point that takes the caller's verification context — one that still holds the source
+					 * signature, as it would after the caller verified it */
+					KSI_VerificationContext vc;
+					KSI_VerificationContext_init(&vc, ctx);
+					vc.signature = sig;
+					r = KSI_Signature_extendWithPolicy(sig, ctx, pub, KSI_VERIFICATION_POLICY_INTERNAL, &vc, &ext);
+					vc.signature = NULL;
+					KSI_VerificationContext_clean(&vc);
+				}
 			} else r = KSI_Signature_extendTo(sig, ctx, to, &ext);
 			printf("X%d", r);
 			if (r == KSI_OK && ext != NULL) {
